@@ -7,4 +7,6 @@ export CARGO_NET_OFFLINE=true
 [ -f sim/Cargo.lock ] || cp /repo/Cargo.lock sim/Cargo.lock
 ( cd sim && cargo build --release --offline ) || exit 1
 ( cd /repo && cargo rustc --offline --lib --features python --crate-type cdylib --target-dir /verif/sim_py/target ) || exit 1
+[ -f sim_py/twin/Cargo.lock ] || cp /repo/Cargo.lock sim_py/twin/Cargo.lock
+( cd sim_py/twin && cargo build --release --offline ) || exit 1
 echo "setup ok"
